@@ -38,7 +38,7 @@ Statements (tagged lists)
     ['alloc', [designator-with-bounds...]] ; ['dealloc', [designators]]
     ['comment', text] ; ['pragma', text]               text without the leading '!' / '!$'
     ['raw', text]                                       verbatim single-line statement (escape hatch)
-    ['exit'] ; ['cycle'] ; ['return']
+    ['exit'] ; ['cycle'] ; ['return']                   ['exit'|'cycle', ['loop', var]] targets the enclosing *named* DO with that variable
 
 Routine (dict)
     {'kind': 'subroutine'|'function', 'name', 'args': [names], 'decls': [decl...], 'body': [stmt...],
